@@ -296,10 +296,10 @@ open TF.Codec TF.Gen TF.GenBridge.Codec TF.GenBridge.CodecG TF.RustStd
 /-- regenerated static list decoder = `decodeList dec (some w)`: `checked_mul` overflow, both length comparisons,
     `chunks_exact(0)` panicking for zero-width items (F10), the chunk loop with its early exit -/
 theorem gen_decode_list_static_eq_model {ε α : Type} (T_decode : List Nat → Res ε α) (into : ε → DynErr) (toVal : α → Val)
-    (dec : List Nat → Outcome Val) (h : Item T_decode toVal dec) (w n : Nat) (r : List Nat) :
+    (dec : List Nat → Outcome Val) (h : Item T_decode toVal dec) (w n : Nat) (r : List Nat) (hw : Words r) :
     obsR (List.map toVal) (Loops.codec_decode_list_static (some w) T_decode into n r)
       = obsM (decodeList dec (some w) n (vals r)) :=
-  gen_decode_list_static T_decode into toVal dec h w n r
+  gen_decode_list_static T_decode into toVal dec h w n r hw
 
 /-- the regenerated code shows the known finding F10: a zero-width item type makes the static list decoder panic
     (`chunks_exact(0)`) on the sequence it should accept, whatever the item decoder is -/
@@ -330,10 +330,39 @@ theorem gen_encode_list_eq_model {α : Type} (sl : Option Nat) (enc : α → Lis
 /-- the hypotheses are satisfiable: the identity "decoder" of one-word items is observed as the model's `bfe` decoder -/
 example : Item (fun r => match r with | [x] => (Res.ok x : Res String Nat) | [] => .err "e" | _ => .err "l")
     (fun x => Val.num (bfe_value x)) (decode .bfe) := by
-  intro r
+  intro r _
   match r with
   | [] => rfl
   | [x] => rfl
   | _ :: _ :: _ => rfl
+
+/-- **composites** (regenerated `Vec<T>`, `[T; N]`, `Option<T>`, `Box<T>`, `PhantomData<T>` decoders): if the component codec
+    is the model's (`Item T_decode toVal (decode t)`, static length `staticLength t`), the composite is the model's
+    constructor case of `decode` -- so by induction every type built from bridged leaves with these constructors is
+    decoded by the current source exactly as the hand model says (value, rejection, panic) -/
+theorem gen_composite_codecs_eq_model {ε α : Type} (t : Ty) (n : Nat) (T_decode : List Nat → Res ε α) (into : ε → DynErr)
+    (toVal : α → Val) (h : Item T_decode toVal (decode t)) :
+    Item (Loops.codec_vec_decode (staticLength t) T_decode into) (fun l => Val.list (l.map toVal)) (decode (.vec t)) ∧
+    Item (Loops.codec_array_decode n (staticLength t) T_decode into) (fun l => Val.list (l.map toVal)) (decode (.array n t)) ∧
+    Item (Loops.codec_option_decode T_decode into) (fun o => Val.opt (Option.map toVal o)) (decode (.option t)) ∧
+    Item (Loops.codec_box_decode T_decode) toVal (decode (.box t)) ∧
+    Item Loops.codec_phantom_decode (fun _ => Val.unit) (decode .phantom) ∧
+    Loops.codec_vec_static_length = staticLength (.vec t) ∧ Loops.codec_option_static_length = staticLength (.option t) ∧
+    Loops.codec_box_static_length (staticLength t) = staticLength (.box t) ∧
+    Loops.codec_phantom_static_length = staticLength .phantom ∧
+    Loops.codec_array_static_length n (staticLength t) = staticLength (.array n t) :=
+  ⟨vec_item t T_decode into toVal h, array_item n t T_decode into toVal h, option_item t T_decode into toVal h,
+    box_item t T_decode toVal h, phantom_item, rfl, rfl, rfl, rfl, by
+      simp only [Loops.codec_array_static_length, staticLength]; cases staticLength t <;> rfl⟩
+example : Item Loops.codec_phantom_decode (fun _ => Val.unit) (decode .phantom) := phantom_item
+
+/-- **transfer** of `encode_decode` / `decode_welltyped`-style facts to the regenerated combinators: whatever a regenerated
+    composite decoder (one that is observed as `decode ty`) accepts, re-encodes (model encoder) to the values of the
+    accepted words; in particular two accepted sequences with the same decoded value have the same values -/
+theorem gen_combinators_roundtrip_transfer {ε α : Type} (ty : Ty) (G : List Nat → Res ε α) (toVal : α → Val)
+    (h : Item G toVal (decode ty)) (r : List Nat) (hw : Words r) (a : α) (hg : G r = .ok a) :
+    encode ty (toVal a) = vals r :=
+  encode_decode ty (vals r) (toVal a) (item_ok h r hw a hg)
+example : Loops.codec_phantom_decode [] = .ok () := rfl
 
 end TF.C03
